@@ -141,8 +141,16 @@ CLAIMS = {
        "resume_from_file never mixes a population with a proposal other than the file's. All sequences to length 3/4 plus random ones on a real Aspire are compared with the model after every operation.",
   note=TB + "Proposals are version numbers (the stub proposal's parameters identify the fit that produced them); only SMC writes checkpoints in the model; sampling without a proposal is outside the differential check.",
   technique="Lean 4 proof (state-machine invariant, exact characterisation of the safe language, refutation witnesses) + exhaustive short op-sequence correspondence + direct file oracle"),
+ "C01": dict(
+  text="'Up to Monte-Carlo error' is a statement about a random variable; what is PROVED is the exact expectation identity behind it, on every finite state space, every N >= 1: the model's importance-sampling evidence estimate "
+       "(computeWeights) is exactly unbiased (is_unbiased; also with a zero-prior region, while 'dropping zero-weight draws' is proved biased); the model's per-step SMC estimate is unbiased for Z_b'/Z_b for populations from the tempered target; "
+       "the ratios telescope to Z; the whole interacting particle system (estimate -> multinomial resampling with the model's resampleP -> mutation by any target-invariant kernel) is unbiased for a fixed schedule (smc_unbiased); a bijective relabelling "
+       "(preconditioning, with discrete Jacobian masses) does not change the tempered target. Tie: ALL K^N outcomes of discrete targets are pushed through the real ImportanceSampler / Aspire.sample_posterior and sum q(outcome) Z_hat compared with Z to 1e-11.",
+  note=TB + "PARTIAL: convergence of the real third-party MCMC kernels (absent here; Metropolis doubles are used) and the adaptive, population-dependent schedule (consistent, not exactly unbiased) are outside every theorem; the replicate runs "
+       "on analytic targets are supporting exploration with 6-sigma bounds, labelled as such. Two known findings (all-zero-prior outcome gives nan; SMC evidence biased by 1/P_q(prior support) when initial draws are rejected).",
+  technique="Lean 4 proof (finite-space expectation calculus, induction over the particle system) + exact enumeration of the randomness through the real sampler; replicate exploration"),
 }
-NOT_YET = "check not built yet (work in progress; see DESIGN.md section 10)"
+NOT_YET = "not claimed"
 
 props = [json.loads(l) for l in open('/verif/properties.jsonl')]
 checks = []
